@@ -352,6 +352,101 @@ theorem sparsify_id (tol : Rat) (m : POMDP)
   · funext s a s1; exact keep_id (hT s a s1)
   · funext s1 a o; exact keep_id (hO s1 a o)
 
+/-! ## sparse storage drops sub-threshold entries: how far the sparse update can be from the dense one -/
+
+theorem sumTo_le_sumTo {n : Nat} {f g : Nat → Rat} (h : ∀ i, i < n → f i ≤ g i) : sumTo n f ≤ sumTo n g := by
+  induction n with
+  | zero => simp [sumTo]
+  | succ n ih =>
+    simp only [sumTo]
+    have h1 := ih (fun i hi => h i (Nat.lt_succ_of_lt hi))
+    have h2 := h n (Nat.lt_succ_self n)
+    linarith
+
+theorem le_sumTo_of_nonneg {n : Nat} {f : Nat → Rat} (h : ∀ i, i < n → 0 ≤ f i) {i : Nat} (hi : i < n) :
+    f i ≤ sumTo n f := by
+  induction n with
+  | zero => omega
+  | succ n ih =>
+    simp only [sumTo]
+    have h1 := sumTo_nonneg (fun j hj => h j (Nat.lt_succ_of_lt hj))
+    have h2 := h n (Nat.lt_succ_self n)
+    rcases Nat.lt_or_ge i n with hlt | hge
+    · have := ih (fun j hj => h j (Nat.lt_succ_of_lt hj)) hlt
+      linarith
+    · have : i = n := by omega
+      subst this; linarith
+
+/-- what the sparse containers do to a non-negative entry: keep it, or replace it by 0 when it is at most `tol` -/
+theorem keep_bounds {tol p : Rat} (htol : 0 ≤ tol) (hp : 0 ≤ p) : 0 ≤ keep tol p ∧ keep tol p ≤ p ∧ p - keep tol p ≤ tol := by
+  unfold keep stored
+  have habs : absQ (0 - p) = p := by
+    unfold absQ
+    split
+    · ring
+    · rename_i h
+      have : p = 0 := by linarith [not_lt.mp h]
+      subst this; ring
+  rw [habs]
+  by_cases h : p ≤ tol
+  · rw [decide_eq_true h]
+    simp only [Bool.not_true, Bool.false_eq_true, if_false]
+    exact ⟨le_refl _, hp, by linarith⟩
+  · rw [decide_eq_false h]
+    simp only [Bool.not_false, if_true]
+    exact ⟨hp, le_refl _, by linarith⟩
+
+/-- C05 "dense and sparse give the same result", quantified for the documented storage threshold:
+    on the SAME input tables the sparse model's unnormalised update is below the dense one by at most
+    `2·tol` per entry (`tol = equalToleranceSmall = 1e-6`), and equal when nothing is sub-threshold
+    (`sparsify_id`). -/
+theorem sparse_within_two_tol {m : POMDP} (hm : ValidModel m) {b : Vec} (hb : IsBelief m.S b) {tol : Rat} (htol0 : 0 ≤ tol)
+    {a o : Nat} (ha : a < m.A) (ho : o < m.O) {s1 : Nat} (hs1 : s1 < m.S) :
+    0 ≤ unnormG m b a o s1 - unnormG (sparsify tol m) b a o s1 ∧
+    unnormG m b a o s1 - unnormG (sparsify tol m) b a o s1 ≤ 2 * tol := by
+  unfold unnormG sparsify
+  simp only
+  set P := sumTo m.S (fun s => m.T s a s1 * b s)
+  set P' := sumTo m.S (fun s => keep tol (m.T s a s1) * b s)
+  have hT := fun s (hs : s < m.S) => keep_bounds htol0 (hm.T_nonneg s a s1 hs ha hs1)
+  have hO := keep_bounds htol0 (hm.O_nonneg s1 a o hs1 ha ho)
+  have hP'0 : 0 ≤ P' := sumTo_nonneg (fun s hs => mul_nonneg (hT s hs).1 (hb.nonneg s hs))
+  have hP'P : P' ≤ P := sumTo_le_sumTo (fun s hs => mul_le_mul_of_nonneg_right (hT s hs).2.1 (hb.nonneg s hs))
+  have hT1 : ∀ s, s < m.S → m.T s a s1 ≤ 1 := by
+    intro s hs
+    have := le_sumTo_of_nonneg (f := fun k => m.T s a k) (fun k hk => hm.T_nonneg s a k hs ha hk) hs1
+    rw [hm.T_sum s a hs ha] at this; exact this
+  have hP1 : P ≤ 1 := by
+    have : P ≤ sumTo m.S b := sumTo_le_sumTo (fun s hs => by
+      have := mul_le_mul_of_nonneg_right (hT1 s hs) (hb.nonneg s hs)
+      simpa using this)
+    rw [hb.sum_one] at this; exact this
+  have hdP : P - P' ≤ tol := by
+    have e : P - P' = sumTo m.S (fun s => (m.T s a s1 - keep tol (m.T s a s1)) * b s) := by
+      have : (fun s => (m.T s a s1 - keep tol (m.T s a s1)) * b s)
+          = (fun s => m.T s a s1 * b s + (-1) * (keep tol (m.T s a s1) * b s)) := by funext s; ring
+      rw [this, sumTo_add, sumTo_mul_left]; ring
+    rw [e]
+    have : sumTo m.S (fun s => (m.T s a s1 - keep tol (m.T s a s1)) * b s) ≤ sumTo m.S (fun s => tol * b s) :=
+      sumTo_le_sumTo (fun s hs => mul_le_mul_of_nonneg_right (hT s hs).2.2 (hb.nonneg s hs))
+    rw [sumTo_mul_left, hb.sum_one, mul_one] at this; exact this
+  have hO1 : m.Ob s1 a o ≤ 1 := by
+    have := le_sumTo_of_nonneg (f := fun k => m.Ob s1 a k) (fun k hk => hm.O_nonneg s1 a k hs1 ha hk) ho
+    rw [hm.O_sum s1 a hs1 ha] at this; exact this
+  have hP0 : 0 ≤ P := le_trans hP'0 hP'P
+  obtain ⟨hk0, hkO, hdO⟩ := hO
+  have hOn := hm.O_nonneg s1 a o hs1 ha ho
+  have e : m.Ob s1 a o * P - keep tol (m.Ob s1 a o) * P'
+      = (m.Ob s1 a o - keep tol (m.Ob s1 a o)) * P + keep tol (m.Ob s1 a o) * (P - P') := by ring
+  rw [e]
+  have hdP0 : 0 ≤ P - P' := by linarith
+  have hdO0 : 0 ≤ m.Ob s1 a o - keep tol (m.Ob s1 a o) := by linarith
+  constructor
+  · exact add_nonneg (mul_nonneg hdO0 hP0) (mul_nonneg hk0 hdP0)
+  · have h1 : (m.Ob s1 a o - keep tol (m.Ob s1 a o)) * P ≤ tol * 1 := mul_le_mul hdO hP1 hP0 htol0
+    have h2 : keep tol (m.Ob s1 a o) * (P - P') ≤ 1 * tol := mul_le_mul (le_trans hkO hO1) hdP hdP0 (by norm_num)
+    linarith
+
 /-! ## beliefExpectedReward -/
 
 theorem rewardLoop_eq (m : POMDP) (b : Vec) (a : Nat) (n : Nat) :
